@@ -83,6 +83,29 @@ def column_interfaces(frame, fm, info, at):
     return out
 
 
+def _resolve_kwargs(solve_kwargs, frame):
+    """solver keyword arguments; an 'initial_condition' given as a spec is turned into a vector of the frame's size:
+    ["ones"] | ["zero_at", i] (ones with an exact zero at position i) | ["ramp"]"""
+    kw = dict(solve_kwargs or {})
+    ic = kw.get("initial_condition")
+    if isinstance(ic, (list, tuple)) and ic and isinstance(ic[0], str):
+        n = len(frame.internal_big_edges)
+        if ic[0] == "ones":
+            kw["initial_condition"] = np.ones(n)
+        elif ic[0] == "zero_at":
+            x0 = np.ones(n)
+            if n:
+                x0[ic[1] % n] = 0.0
+            kw["initial_condition"] = x0
+        elif ic[0] == "zero_every":
+            x0 = np.ones(n)
+            x0[ic[2] % max(ic[1], 1)::ic[1]] = 0.0
+            kw["initial_condition"] = x0
+        elif ic[0] == "ramp":
+            kw["initial_condition"] = np.linspace(0.5, 1.5, n)
+    return kw
+
+
 def solve_static(at, k=3, cmap=None, fit="dlite", method=None, allow_negatives=False, lab=None, post=None, resample=None,
                  angle_limit=np.inf, solve_kwargs=None, metadata=None):
     """returns Solved with: frame, forsys, fm, info, exc (exception or None), warnings (list of str), forces (list) ..."""
@@ -103,7 +126,7 @@ def solve_static(at, k=3, cmap=None, fit="dlite", method=None, allow_negatives=F
             s.build_force_matrix(when=0, circle_fit_method=fit, angle_limit=angle_limit, metadata=metadata or {})
             r.fm = s.force_matrices[0]
             r.M = np.array(r.fm.matrix, float)
-            kw = dict(solve_kwargs or {})
+            kw = _resolve_kwargs(solve_kwargs, frame)
             if method is not None:
                 kw["method"] = method
             s.solve_stress(when=0, allow_negatives=allow_negatives, **kw)
@@ -149,7 +172,7 @@ def solve_frame(s, t, at, info, fit="dlite", method=None, allow_negatives=False,
             s.build_force_matrix(when=t, circle_fit_method=fit, angle_limit=angle_limit)
             r.fm = s.force_matrices[t]
             r.M = np.array(r.fm.matrix, float)
-            kw = dict(solve_kwargs or {})
+            kw = _resolve_kwargs(solve_kwargs, s.frames[t])
             if method is not None:
                 kw["method"] = method
             s.solve_stress(when=t, allow_negatives=allow_negatives, **kw)
